@@ -113,6 +113,14 @@ def library(tier):
         # closed, never registered behind Stop's back
         {"id": "lib_accept_during_stop", "kind": "script", "conns": [c(1, 4, "l13")],
          "steps": [S("armlate"), S("connect", k=1), S("stop"), S("send", k=1, kind="connect"), S("settle")]},
+        # packets pipelined (same TCP write) behind a packet that makes the broker stop consuming client.in: they are read
+        # before the broker can close the socket; readLoop must not stay parked on `in`, Stop must return
+        {"id": "lib_pipelined_behind_protocol_error_v3", "kind": "script", "conns": [c(1, 4, "l14")],
+         "steps": [S("connect", k=1), S("send", k=1, kind="connect"), S("send", k=1, kind="bad", tail=12), S("settle"), S("close", k=1), S("settle"), S("stop")]},
+        {"id": "lib_pipelined_behind_first_packet_not_connect", "kind": "script", "conns": [c(1, 4, "l15")],
+         "steps": [S("connect", k=1), S("send", k=1, kind="badconnect", tail=12), S("settle"), S("stop")]},
+        {"id": "lib_pipelined_behind_disconnect_v5", "kind": "script", "conns": [c(1, 5, "l16")],
+         "steps": [S("connect", k=1), S("send", k=1, kind="connect"), S("send", k=1, kind="disc", tail=12), S("settle"), S("stop")]},
         {"id": "lib_gate_two_connects_stored_session", "kind": "gate", "conns": [c(1, 4, "g1", clean=False)]},
         # lock order (spec/LockOrder.tla): a delivery parked under srv.mu + the subscription store's read lock, a SUBSCRIBE
         # announcing a writer, then a statistics read / a new client id; every request must still be answered
